@@ -170,7 +170,11 @@ func (ic *inferContext) inferRelTypesFromPremise(premises []ast.Term, state *inf
 			if err != nil {
 				return nil, err // This cannot happen.
 			}
-			// TODO: handle type variables.
+			// Type variables of a polymorphic built-in relation (:match_pair, :match_cons, ...) stand
+			// for the types found in their place in the arguments that already have a type.
+			if _, isBuiltin := symbols.BuiltinRelations[atom.Predicate]; isBuiltin {
+				relTypeArgs = instantiateTypeVars(relTypeArgs, atom.Args, state, bc.nameTrie)
+			}
 			nextState := state.makeNext()
 			for i, a := range atom.Args {
 				if v, ok := a.(ast.Variable); ok {
@@ -278,6 +282,50 @@ func (ic *inferContext) inferRelTypesFromPremise(premises []ast.Term, state *inf
 		return []*inferState{nextState}, nil
 	}
 	return nil, fmt.Errorf("unexpected state %v", premise)
+}
+
+// instantiateTypeVars replaces the type variables in the argument types of a polymorphic relation
+// type by the upper bound of the types found in their place among the arguments that are constants
+// or variables with a known type. A type variable about which nothing is known becomes /any.
+func instantiateTypeVars(relTypeArgs []ast.BaseTerm, args []ast.BaseTerm, state *inferState, nameTrie symbols.NameTrie) []ast.BaseTerm {
+	hasTypeVar := false
+	for _, relTypeArg := range relTypeArgs {
+		vars := make(map[ast.Variable]bool)
+		ast.AddVars(relTypeArg, vars)
+		if len(vars) > 0 {
+			hasTypeVar = true
+		}
+	}
+	if !hasTypeVar || len(relTypeArgs) != len(args) {
+		return relTypeArgs
+	}
+	varRanges := state.asMap()
+	actualsOfVar := make(map[ast.Variable][]ast.BaseTerm)
+	for i, arg := range args {
+		if v, ok := arg.(ast.Variable); ok {
+			if _, known := varRanges[v]; !known {
+				continue
+			}
+		}
+		collectTypeVarActuals(relTypeArgs[i], boundOfArg(arg, varRanges, nameTrie), actualsOfVar)
+	}
+	subst := make(map[ast.Variable]ast.BaseTerm)
+	for _, relTypeArg := range relTypeArgs {
+		vars := make(map[ast.Variable]bool)
+		ast.AddVars(relTypeArg, vars)
+		for v := range vars {
+			if actuals := actualsOfVar[v]; len(actuals) > 0 {
+				subst[v] = symbols.UpperBound(nil, actuals)
+			} else {
+				subst[v] = ast.AnyBound
+			}
+		}
+	}
+	instantiated := make([]ast.BaseTerm, len(relTypeArgs))
+	for i, relTypeArg := range relTypeArgs {
+		instantiated[i] = relTypeArg.ApplySubstBase(ast.SubstMap(subst))
+	}
+	return instantiated
 }
 
 // inferRelTypesFromClause infers possible relation types for the head predicate of a single clause.
